@@ -88,11 +88,11 @@ void Parser::Backtracker::backtrack()
 
 /* DepthControl */
 
-Parser::DepthControl::DepthControl(int& depth)
+Parser::DepthControl::DepthControl(int& depth, int maxDepth, const char* limitMessage)
     : depth_(depth)
 {
-    if (depth_ > MAX_DEPTH_OF_STMTS)
-        throw std::runtime_error("maximum depth of statements reached");
+    if (depth_ >= maxDepth)
+        throw std::runtime_error(limitMessage);
     ++depth_;
 }
 
